@@ -571,6 +571,10 @@ func GenOps(e *Exec, args []string) {
 	if inj == nil {
 		inj = []interface{}{}
 	}
+	var groups [][]string
+	if len(args) > 3 {
+		_ = json.Unmarshal([]byte(args[3]), &groups)
+	}
 	out := bufio.NewWriterSize(os.Stdout, 1<<20)
 	defer out.Flush()
 	id := 0
@@ -606,7 +610,7 @@ func GenOps(e *Exec, args []string) {
 				if err != nil {
 					continue
 				}
-				return v.(types.Object), true
+				return exclusive(r, v, groups).(types.Object), true
 			}
 			return types.Object{}, false
 		}
@@ -649,12 +653,69 @@ func GenOps(e *Exec, args []string) {
 			steps := []interface{}{}
 			for k := 0; k < n; k++ {
 				g := genGo(modes[r.Intn(len(modes)-1)])
-				steps = append(steps, J{"do": "to", "obj": g})
+				steps = append(steps, J{"do": "to", "obj": g}, J{"do": "peek"})
 				if r.P(50) {
-					steps = append(steps, J{"do": "to"}) // idempotence: same source again
+					steps = append(steps, J{"do": "to"}, J{"do": "peek"}) // idempotence: same source again
 				}
 			}
 			emit(J{"op": "seq", "type": t.Name, "tf": "empty", "obj": "zero", "tag": "refresh", "steps": steps})
 		}
 	}
+}
+
+// exclusive keeps at most one attribute of every oneof group non-null (the quantifier of C07 / C08), at every depth.
+func exclusive(r *Rng, v attr.Value, groups [][]string) attr.Value {
+	switch x := v.(type) {
+	case types.Object:
+		if x.Attrs == nil {
+			return x
+		}
+		n := map[string]attr.Value{}
+		for k, y := range x.Attrs {
+			n[k] = exclusive(r, y, groups)
+		}
+		for _, g := range groups {
+			var live []string
+			for _, name := range g {
+				if a, ok := n[name]; ok && !a.IsNull() {
+					live = append(live, name)
+				}
+			}
+			if len(live) > 1 {
+				keep := live[r.Intn(len(live))]
+				for _, name := range live {
+					if name == keep {
+						continue
+					}
+					t := x.AttrTypes[name]
+					if z, err := t.ValueFromTerraform(e0ctx, tftypes.NewValue(t.TerraformType(e0ctx), nil)); err == nil {
+						n[name] = z
+					}
+				}
+			}
+		}
+		x.Attrs = n
+		return x
+	case types.List:
+		if x.Elems == nil {
+			return x
+		}
+		n := make([]attr.Value, len(x.Elems))
+		for i, y := range x.Elems {
+			n[i] = exclusive(r, y, groups)
+		}
+		x.Elems = n
+		return x
+	case types.Map:
+		if x.Elems == nil {
+			return x
+		}
+		n := map[string]attr.Value{}
+		for k, y := range x.Elems {
+			n[k] = exclusive(r, y, groups)
+		}
+		x.Elems = n
+		return x
+	}
+	return v
 }
